@@ -307,17 +307,15 @@ func (r Stack) Swap(i, j int) {
 }
 
 func (r *stack) swap(i, j int) {
-	if ok := i <= r.ulen(); !ok {
-		return
-	} else if ok = j <= r.ulen(); !ok {
+	r.lock()
+	defer r.unlock()
+
+	if u := r.ulen(); i < 0 || j < 0 || i >= u || j >= u {
 		return
 	}
 
 	i++
 	j++
-
-	r.lock()
-	defer r.unlock()
 
 	(*r)[i], (*r)[j] = (*r)[j], (*r)[i]
 }
